@@ -1037,6 +1037,7 @@ func checkStrategyParser(w *World, r *Report) {
 	r.Count("paths", len(res.Paths))
 	mapped := map[int64]string{}
 	defaultErr := true
+	decBad, nDecOK, nDecFail := "", 0, 0
 	for _, p := range res.Paths {
 		if p.End != "return" {
 			continue
@@ -1066,6 +1067,33 @@ func checkStrategyParser(w *World, r *Report) {
 		if name != "" && stored >= 0 {
 			mapped[stored] = name
 		}
+		// the result of reading the name (the unmarshal callback): a name is mapped only behind its
+		// err == nil edge with a nil result; its failure is returned and stores nothing
+		var dec *Lit
+		for i, l := range p.Lits {
+			if l.Atom.Op == "==" && l.Atom.R == "nil" && (strings.HasPrefix(l.Atom.L, "arg0(") || strings.HasPrefix(l.Atom.L, "dyn:arg0(")) {
+				dec = &p.Lits[i]
+			}
+		}
+		switch {
+		case dec == nil:
+			if stored >= 0 {
+				decBad = "a strategy is stored on a path that never tested the result of reading the name"
+			}
+		case dec.Val:
+			nDecOK++
+			if name != "" && stored >= 0 && p.Ret[0] != "nil" {
+				decBad = "the recognised name " + name + " returns the error " + p.Ret[0]
+			}
+		default:
+			nDecFail++
+			if stored >= 0 || unwrapErrAP(p.Ret[0]) != dec.Atom.L {
+				decBad = "when reading the name fails the parser returns " + p.Ret[0] + " (stored a strategy: " + fmt.Sprint(stored >= 0) + ")"
+			}
+			if name != "" {
+				decBad = "a name is compared although reading it failed"
+			}
+		}
 		if sawName && allFalse && (p.Ret[0] == "nil" || stored >= 0) {
 			defaultErr = false
 		}
@@ -1081,6 +1109,9 @@ func checkStrategyParser(w *World, r *Report) {
 		r.Check(ok && got == want, "strategy.names", "QueueStrategy constant "+n, w.Pos(um.Pos()),
 			fmt.Sprintf("name %q parses to %s", got, n), fmt.Sprintf("declared strategy %s (=%d) is parsed from %q, expected %q", n, consts[n], got, want))
 	}
+	r.Check(decBad == "" && nDecOK > 0 && nDecFail > 0, "strategy.decode-result", FuncName(um)+": result of reading the name", w.Pos(um.Pos()),
+		"names are compared and a strategy is stored only behind the err == nil edge of the unmarshal callback; its error is returned",
+		"the strategy parser does not use the result of reading the name correctly: "+decBad+" — a configured queue_strategy is silently ignored (the pipeline appends where it should replace) or a definition that cannot be read is accepted")
 	r.Check(defaultErr, "strategy.default", FuncName(um)+": unknown name", w.Pos(um.Pos()), "an unknown strategy name returns an error and stores nothing", "an unknown strategy name is accepted")
 }
 
